@@ -138,6 +138,10 @@ fn svg_record(seed: u64, n: u64, target: usize, path: &str) -> Value {
             1 => format!("\x1b[7m inverted \x1b[31;42m both \x1b[27;0m{}", svg_text(&mut r, target / 2)),
             // fragments made only of zero-width characters: a combining mark between two style changes, a line of U+200B
             2 => format!("e\x1b[31m\u{301}\x1b[0m!\n\u{200b}\n\x1b[4m\u{200d}\x1b[24;1mx{}", svg_text(&mut r, target / 2)),
+            // a CR and the LF after it separated by sequences that print nothing (erase-line, a redundant reset, a hyperlink
+            // terminator, a style change): still "a carriage return before a newline"
+            3 => format!("ab\r\x1b[K\ncd\r\x1b[0m\nef\r\x1b]8;;\x1b\\\ngh\x1b[1m\r\x1b[K\x1b[K\nij{}", svg_text(&mut r, target / 2)),
+            4 if k % 2 == 0 => format!("kl\r\x1b[31m\nmn\x1b[0m\r\x1b[4m\x1b[K\nop{}", svg_text(&mut r, target / 2)),
             _ => svg_text(&mut r, target),
         };
         let (pname, pal) = if r.chance(1, 2) { ("VGA", anstyle_svg::VGA) } else { ("WIN10", anstyle_svg::WIN10_CONSOLE) };
